@@ -267,8 +267,10 @@ func init() {
 		return &cell
 	})
 	reg("time.After", func(m *Machine, fr *frame, a []Value) Value {
+		// one-shot delays elapse immediately (retry back-off, poll sleeps); periodic timers never fire
 		m.chanN++
-		return &Chan{id: m.chanN, cap: 1}
+		var now Value = Struct{BV(64, 0), BV(64, uint64(1700000000+62135596800)), (*Value)(nil)}
+		return &Chan{id: m.chanN, cap: 1, buf: []Value{now}}
 	})
 	// (Time).Format("2006-01-02") of a symbolic instant: the ISO date is modelled by the order- and
 	// equality-preserving token "#" + 8-digit day number floor((unix+zoneoffset)/86400). Harness oracles
